@@ -64,4 +64,8 @@ REFS = {
         'def impose_tvariance(v, samples, weights=None, k=0, clip=False):\n    import numpy as np\n    m = tmean(samples, weights, k=k, clip=clip)\n    samples = np.asarray(list(samples))\n    tvar = tvariance(samples, weights, k=k, clip=clip)\n    if not tvar:\n        return [np.nan] * len(samples)\n    scale = np.sqrt(float(v) / tvar)\n    samples = samples * scale\n    return impose_tmean(m, samples, weights, k=k, clip=clip)\n',
     'mystic.math.measures:impose_tstd':
         'def impose_tstd(s, samples, weights=None, k=0, clip=False):\n    return impose_tvariance(s ** 2, samples, weights, k=k, clip=clip)\n',
+    'mystic.math.measures:impose_support':
+        'def impose_support(index, samples, weights):\n    if index is None:\n        index = range(len(weights))\n    index = set((len(weights) + i if i < 0 else i for i in index))\n    m = mean(samples, weights)\n    n = sum(weights)\n    weights = [w if i in index else 0.0 for i, w in enumerate(weights)]\n    weights = normalize(weights, n)\n    return (impose_mean(m, samples, weights), weights)\n',
+    'mystic.math.measures:impose_unweighted':
+        'def impose_unweighted(index, samples, weights, nullable=True):\n    if index is None:\n        index = ()\n    index = set((len(weights) + i if i < 0 else i for i in index))\n    m = mean(samples, weights)\n    n = sum(weights)\n    _weights = [0.0 if i in index else w for i, w in enumerate(weights)]\n    if not nullable and (not sum(_weights)):\n        _weights = [0.0 if i in index else 1.0 for i, w in enumerate(weights)]\n    weights = normalize(_weights, n)\n    return (impose_mean(m, samples, weights), weights)\n',
 }
